@@ -8,6 +8,7 @@ import ast
 from ..cfg import CFG
 from ..core import AnalysisError, const_value
 from ..defuse import DefUse, Terms, show, walk_term
+from ..defuse import key as tkey
 from ..tutil import lin
 
 EXPLANATION = (
@@ -108,7 +109,7 @@ def _convert_line(ctx, f):
               f"prefix ends at {show(s1, 40)}, proteins span "
               f"{show(s2, 40)}..{show(e1, 40)}, suffix starts at "
               f"{show(e2, 40)}", node=rnode)
-    key = (lambda x: show(x, 300))
+    key = (lambda x: tkey(x, 300))
     ls, le = lin(s2, key), lin(e1, key)
     ok_s = ls.const == 0 and ls.atoms == {p_idx: 1}
     ctx.check(ok_s, "C19a-proteins-start-at-protein-column", f,
@@ -224,7 +225,7 @@ def _to_valid(ctx, f):
     wh, w2, wl = sorted(writes, key=lambda n: n.lineno)
     hdr = T.of(wh.args[0])
     ok_h = hdr[0] == "bin" and hdr[3] == ("const", "\n") and "next(" in \
-        show(hdr[2], 100) and not cfg.guards(wh)
+        tkey(hdr[2], 100) and not cfg.guards(wh)
     ctx.check(ok_h, "C19b-header-once", f,
               "the header line is written once, first", show(hdr, 100),
               node=wh)
